@@ -3,7 +3,7 @@ import concurrent.futures as cf, os, resource, signal, subprocess, time
 from .common import NCPU, log
 
 TRACE_SET = ("openat,open,creat,openat2,close,copy_file_range,sendfile,splice,write,pwrite64,pwritev,writev,ftruncate,truncate,"
-             "fallocate,ioctl,read,pread64,lseek,fchmod,fchmodat,chmod,utimensat,futimens,fchown,fchownat,lchown,chown,"
+             "fallocate,ioctl,read,pread64,lseek,fchmod,fchmodat,chmod,utimensat,fchown,fchownat,lchown,chown,"
              "fsetxattr,setxattr,lsetxattr,fsync,fdatasync,sync_file_range,mkdir,mkdirat,symlink,symlinkat,mknod,mknodat,rename,renameat,"
              "renameat2,unlink,unlinkat,rmdir,link,linkat,getdents64,dup,dup2,dup3,fcntl")
 
